@@ -16,7 +16,8 @@ import (
 func init() {
 	Register(&Rule{ID: "DIFFENTRY", Props: []string{"C06", "C07"}, Min: 4,
 		Doc: "(1) in DiffIter, DiffLinks and StartDiff no success return (nil error constant) is reachable without a preceding call that creates the diff state: the entry points do not answer 'no differences' on their own; " +
-			"(2) every function returning a *diffState returns an object allocated by that very call, and the memo maps stored into it there are made by that call: no pooling, no package-level state.",
+			"(2) every function returning a *diffState returns an object allocated by that very call, and the memo maps stored into it there are made by that call: no pooling, no package-level state; " +
+			"(3) where such a function hands a tree's root (Mast.root) to a stack, the callee tests the root for being an entry-less in-memory node (isEmpty) first: the placeholder root of a tree loaded from an empty Root belongs to no version and has no name.",
 		Run: runDIFFENTRY})
 }
 
@@ -93,6 +94,39 @@ func runDIFFENTRY(c *Ctx) {
 			} else {
 				c.Violation(fn, pos, "diff entry point reports success without diffing",
 					name+" can return nil before any diff state exists: for the inputs that take this shortcut nothing is reported at all — neither the entries/nodes only the old version has (removed) nor those only the new one has (added)")
+			}
+		}
+	}
+	// (3)
+	isEmptyFn := c.MustFunc("(*mastNode).isEmpty")
+	for _, fn := range ctors {
+		for _, ci := range CallsOf(fn) {
+			hasRoot := false
+			for _, a := range ci.Common().Args {
+				if _, isRoot := rootLoad(a); isRoot {
+					hasRoot = true
+				}
+			}
+			if !hasRoot || isEmptyFn == nil {
+				continue
+			}
+			guarded := false
+			for _, callee := range c.Facts.Callees(ci) {
+				if callee == isEmptyFn || c.Facts.Reach(callee)[isEmptyFn] {
+					guarded = true
+				}
+			}
+			// or the call itself sits under a test of the root in the constructor
+			for _, f := range ir.FactsAt(ci.Block()) {
+				if call, ok := f.Cond.(*ssa.Call); ok && ir.Callee(call.Call) == isEmptyFn && !f.Truth {
+					guarded = true
+				}
+			}
+			if guarded {
+				c.OK(P.InstrPos(ci), "root handed to the diff in "+ir.FuncName(fn), "through a test for the entry-less placeholder root", false)
+			} else {
+				c.Violation(fn, P.InstrPos(ci), "a tree's root is pushed without excluding the entry-less placeholder",
+					"a tree loaded from an empty Root has an in-memory entry-less node as its root; pushed like a link it is reported to the link callback as added or removed — an object, not a name, and twice for empty against empty")
 			}
 		}
 	}
